@@ -79,8 +79,25 @@ DigestLaw(r, i, name) ==
                                 /\ (RawBytes(i.x) # RawBytes(i.y)) => (r.x.v.u # r.y.v.u)
                                 /\ (RawBytes(i.x) = RawBytes(i.y)) => (r.x.v.u = r.y.v.u)
     [] name = "digest_variants" -> \A a, b \in DOMAIN r : (OkStr(r[a]) /\ OkStr(r[b]) /\ (a # b => r[a].v.u # r[b].v.u))
+\* xxHash of the empty input with seed 0 (published in the xxHash specification): 32- and 64-bit results as the limbs of the
+\* two's-complement integer the function returns, the 128-bit result as its decimal text
+XxEmpty == [v \in {"XXH32", "XXH64", "XXH3-64"} |-> IF v = "XXH32" THEN <<0, 0, 716, 23813>>                    \* 0x02CC5D05
+                                                       ELSE IF v = "XXH64" THEN <<61254, 56119, 20952, 59801>>     \* 0xEF46DB3751D8E999
+                                                       ELSE <<11526, 32773, 14547, 38082>>]                         \* 0x2D06800538D394C2
+XxEmpty128 == "204254712233039002205064565430793619839"                                                                \* 0x99AA06D3014798D86001C324468D497F
+OkInt(x) == x.k = "ok" /\ x.v.t = "int"
+HashLaw(r, i, name) ==
+  CASE name = "xx_vector" -> IF i.variant = "XXH3-128" THEN OkStr(r.out) /\ r.out.v.s = XxEmpty128
+                             ELSE OkInt(r.out) /\ r.out.v.w = XxEmpty[i.variant]
+    \* integer-valued hashes: equal inputs equal results, different inputs different results, XXH32 fits 32 bits, variants differ
+    [] name = "hash_laws" -> /\ \A n \in {"x32", "x64", "x3", "sea"} : OkInt(r[n]) /\ OkInt(r[n \o "_y"])
+                             /\ OkStr(r.x128) /\ OkStr(r.x128_y)
+                             /\ r.x32.v.w[1] = 0 /\ r.x32.v.w[2] = 0
+                             /\ (RawBytes(i.x) = RawBytes(i.y)) => (\A n \in {"x32", "x64", "x3", "sea"} : r[n].v.w = r[n \o "_y"].v.w) /\ r.x128.v.s = r.x128_y.v.s
+                             /\ (RawBytes(i.x) # RawBytes(i.y)) => (\A n \in {"x64", "x3", "sea"} : r[n].v.w # r[n \o "_y"].v.w) /\ r.x128.v.s # r.x128_y.v.s
+                             /\ r.x64.v.w # r.x3.v.w /\ r.x64.v.w # r.sea.v.w /\ r.x3.v.w # r.sea.v.w
 Digest == /\ l <= Len(Rec) /\ Ev.e = "law" /\ ~IsCrc(Ev)
-          /\ LET ok == DigestLaw(Ev.r, Ev.inp, Ev.law.name) IN
+          /\ LET ok == IF Ev.law.name \in {"xx_vector", "hash_laws"} THEN HashLaw(Ev.r, Ev.inp, Ev.law.name) ELSE DigestLaw(Ev.r, Ev.inp, Ev.law.name) IN
              /\ viols' = IF ok THEN viols ELSE Append(viols, [prop |-> "C27", rule |-> Ev.law.name, at |-> Ev.law.fn, prog |-> 0, line |-> l, what |-> [inp |-> Ev.inp, r |-> Ev.r]])
              /\ cnt' = Bump(Bump(cnt, "laws"), "C27")
           /\ l' = l + 1 /\ k' = 0 /\ reg' = StartReg(l + 1)
